@@ -22,7 +22,7 @@ From Coq Require Import List NArith Bool PeanoNat Sorted.
 Import ListNotations.
 From RX Require Import Generated.
 From RX.Model Require Import Base CharClass Stream Tokenizer Doc Builder Parse Api.
-From RX.Proofs Require Import TermStream TermUtf8 TermParse TermFinal NoPanicUtf8 NoPanicStream NoPanicTokenizer NoPanicBuilder NoPanicBuilderCtx NoPanicText NoPanicParse NoPanicFinal StrictModel StrictTok StrictStream StrictBuilder StrictApi Strict.
+From RX.Proofs Require Import TermStream TermUtf8 TermParse TermFinal NoPanicUtf8 NoPanicStream NoPanicTokenizer NoPanicBuilder NoPanicBuilderCtx NoPanicText NoPanicParse NoPanicFinal StrictModel StrictTok StrictStream StrictBuilder StrictApi Strict StrictRunModel StrictRun.
 Open Scope N_scope.
 
 (* ---- Proofs/NoPanicFinal.v ---- *)
@@ -36,6 +36,18 @@ Theorem C01_parse_terminates :
   forall text opt, valid_utf8_b text = true -> parse text opt <> OutOfFuel.
 Proof. exact parse_terminates. Qed.
 Print Assumptions C01_parse_terminates.
+
+(* ---- Proofs/StrictRun.v ---- *)
+Theorem C01_strict_refines :
+  forall text opt, valid_utf8_b text = true -> nodes_limit opt <= u32_max -> parse_strict text opt = parse text opt.
+Proof. exact strict_refines. Qed.
+Print Assumptions C01_strict_refines.
+
+Theorem C01_parse_strict_no_panic :
+  forall text opt p, valid_utf8_b text = true -> nodes_limit opt <= u32_max ->
+  parse_strict text opt <> Panic p.
+Proof. exact parse_strict_no_panic. Qed.
+Print Assumptions C01_parse_strict_no_panic.
 
 (* ---- Proofs/Strict.v ---- *)
 Theorem C01_site_builder_run :
@@ -113,7 +125,7 @@ Proof. exact parse_document_terminates. Qed.
 Print Assumptions C01_parse_document_terminates.
 
 (* ---- Proofs/TermUtf8.v ---- *)
-Module G4.
+Module G5.
 Local Notation safe := TermStream.safe.
 Theorem C01_termination_needs_valid_utf8 :
   valid_utf8_b overlong_lt_text = false /\
@@ -123,10 +135,10 @@ Theorem C01_termination_needs_valid_utf8 :
 Proof. exact termination_needs_valid_utf8. Qed.
 Print Assumptions C01_termination_needs_valid_utf8.
 
-End G4.
+End G5.
 
 (* ---- Proofs/NoPanicTokenizer.v ---- *)
-Module G5.
+Module G6.
 Local Notation token := Tokenizer.token.
 Theorem C01_tokenizer_no_panic :
   forall (text : bytes) (C : Type) (ev : token -> C -> res C) (dtd : bool) (c : C) p,
@@ -136,10 +148,10 @@ Theorem C01_tokenizer_no_panic :
 Proof. exact tokenizer_no_panic. Qed.
 Print Assumptions C01_tokenizer_no_panic.
 
-End G5.
+End G6.
 
 (* ---- Proofs/NoPanicParse.v ---- *)
-Module G6.
+Module G7.
 Local Notation TokOk := NoPanicTokenizer.TokOk.
 Theorem C01_token_no_panic :
   forall text tok c p, valid_utf8_b text = true -> Core text c -> NoPanicTokenizer.TokOk text tok ->
@@ -160,4 +172,4 @@ Theorem C01_parse_document_token_no_panic :
 Proof. exact parse_document_token_no_panic. Qed.
 Print Assumptions C01_parse_document_token_no_panic.
 
-End G6.
+End G7.
